@@ -13,19 +13,20 @@ EXTENDS Naturals, Sequences, TLC
 
 ResCodes  == {"err", "r0", "r1", "r7", "r8", "r9"}       \* request error, TdxAttestSuccess, Unexpected, NotSupported, QuoteFailure, Busy
 Statuses  == {"s0", "inflight", "error", "unavailable", "other"}
-OutLens   == {"zero", "one", "exact", "buf", "bufPlus1", "max"}   \* 0, 1, len(quote), buffer size, buffer size + 1, 2^32 - 1
+OutLens   == {"zero", "one", "exact", "buf", "bufPlus1", "max", "unwritten"}   \* 0, 1, len(quote), buffer size, buffer size + 1, 2^32 - 1; unwritten: the device leaves the field as the client sent it (0)
 Buffers   == {"quote", "untouched"}                       \* device wrote a quote / left the TD report in place
 Devices   == [rr : ResCodes, qr : ResCodes, st : Statuses, ol : OutLens, buf : Buffers]
 Providers == {"bytes", "error", "both", "empty", "unsupportedNoDevice", "unsupportedFileDevice"}
 Vias      == {"device", "provider"}
+Priors    == {"none", "good"}      \* good: a successful GetRawQuote through a device took place just before, in the same process
 
 OutLenValid(ol) == ol \in {"one", "exact", "buf"}
 
 \* C15, declaratively: the only device behaviour that yields data
 DeviceYieldsData(d) == d.rr = "r0" /\ d.qr = "r0" /\ d.st = "s0" /\ OutLenValid(d.ol)
 
-VARIABLES via, dev, prov, pc, ioctls, opened, result
-vars == <<via, dev, prov, pc, ioctls, opened, result>>
+VARIABLES via, dev, prov, prior, pc, ioctls, opened, result
+vars == <<via, dev, prov, prior, pc, ioctls, opened, result>>
 
 GoodDevice == [rr |-> "r0", qr |-> "r0", st |-> "s0", ol |-> "exact", buf |-> "quote"]
 
@@ -34,39 +35,44 @@ Init == /\ via \in Vias
         /\ prov \in Providers
         /\ (via = "device" => prov = "bytes")              \* irrelevant dimension pinned
         /\ (via = "provider" => dev = GoodDevice)
-        /\ pc = "start" /\ ioctls = <<>> /\ opened = FALSE /\ result = "none"
+        /\ prior \in Priors
+        /\ pc = (IF prior = "good" THEN "prior" ELSE "start") /\ ioctls = <<>> /\ opened = FALSE /\ result = "none"
+
+\* an earlier, successful call: it leaves nothing behind that the next call could see (each call builds its own request)
+PriorCall == /\ pc = "prior" /\ pc' = "start"
+             /\ UNCHANGED <<via, dev, prov, prior, ioctls, opened, result>>
 
 \* --- device path
 SendReport == /\ pc = "report"
               /\ ioctls' = Append(ioctls, "report")
               /\ pc' = IF dev.rr = "r0" THEN "quote" ELSE "fail"
-              /\ UNCHANGED <<via, dev, prov, opened, result>>
+              /\ UNCHANGED <<via, dev, prov, prior, opened, result>>
 SendQuote  == /\ pc = "quote"
               /\ ioctls' = Append(ioctls, "quote")
               /\ pc' = IF dev.qr = "r0" /\ dev.st = "s0" /\ OutLenValid(dev.ol) THEN "data" ELSE "fail"
-              /\ UNCHANGED <<via, dev, prov, opened, result>>
+              /\ UNCHANGED <<via, dev, prov, prior, opened, result>>
 ReturnData == /\ pc = "data" /\ result' = "data" /\ pc' = "done"
-              /\ UNCHANGED <<via, dev, prov, ioctls, opened>>
+              /\ UNCHANGED <<via, dev, prov, prior, ioctls, opened>>
 ReturnErr  == /\ pc = "fail" /\ result' = "error" /\ pc' = "done"
-              /\ UNCHANGED <<via, dev, prov, ioctls, opened>>
+              /\ UNCHANGED <<via, dev, prov, prior, ioctls, opened>>
 \* --- dispatch and provider path
 Start == /\ pc = "start"
          /\ pc' = IF via = "device" THEN "report" ELSE "supported"
-         /\ UNCHANGED <<via, dev, prov, ioctls, opened, result>>
+         /\ UNCHANGED <<via, dev, prov, prior, ioctls, opened, result>>
 AskSupported == /\ pc = "supported"
                 /\ pc' = IF prov \in {"unsupportedNoDevice", "unsupportedFileDevice"} THEN "fallback" ELSE "provider"
-                /\ UNCHANGED <<via, dev, prov, ioctls, opened, result>>
+                /\ UNCHANGED <<via, dev, prov, prior, ioctls, opened, result>>
 ProviderResult(p) == CASE p = "bytes" -> "data" [] p = "empty" -> "data" [] p = "error" -> "error" [] p = "both" -> "both"
 ProviderQuote == /\ pc = "provider"
                  /\ result' = ProviderResult(prov)
                  /\ pc' = "done"
-                 /\ UNCHANGED <<via, dev, prov, ioctls, opened>>
+                 /\ UNCHANGED <<via, dev, prov, prior, ioctls, opened>>
 Fallback == /\ pc = "fallback"
             /\ opened' = TRUE                          \* the device path is tried: the configured path is opened
             /\ result' = "error" /\ pc' = "done"       \* no TDX device in the test environment: open or ioctl fails
-            /\ UNCHANGED <<via, dev, prov, ioctls>>
+            /\ UNCHANGED <<via, dev, prov, prior, ioctls>>
 
-Next == Start \/ SendReport \/ SendQuote \/ ReturnData \/ ReturnErr \/ AskSupported \/ ProviderQuote \/ Fallback
+Next == PriorCall \/ Start \/ SendReport \/ SendQuote \/ ReturnData \/ ReturnErr \/ AskSupported \/ ProviderQuote \/ Fallback
 Spec == Init /\ [][Next]_vars
 
 Done == pc = "done"
